@@ -231,7 +231,9 @@ def _main(prop_id: str, args, seed: int, work: str, t0: float) -> int:
     # ---------------- verdict -----------------
     wall = time.time() - t0
     harness = list(rec.harness_errors)
-    fdir = os.path.join(rdir, "found")
+    # runs against another tree (VERIF_REPO, sensitivity audits) never write into the committed directories
+    alt = None if core.REPO == "/repo" else os.path.join(VERIF_DIR, ".work", "alt-%d" % os.getpid())
+    fdir = os.path.join(rdir, "found") if alt is None else os.path.join(alt, "found", prop_id)
     for sig, frec in sorted(rec.failures.items()):
         if frec["fail"]["sub_oracle"] == "HARNESS":
             harness.append(frec["fail"]["detail"])
@@ -281,8 +283,9 @@ def _main(prop_id: str, args, seed: int, work: str, t0: float) -> int:
         "wall_s": round(wall, 2),
         "violations": len(violations),
     }
-    os.makedirs(os.path.join(VERIF_DIR, "evidence"), exist_ok=True)
-    with open(os.path.join(VERIF_DIR, "evidence", "%s.json" % prop_id), "w", encoding="utf-8") as f:
+    evdir = os.environ.get("VERIF_EVIDENCE_DIR") or (os.path.join(VERIF_DIR, "evidence") if alt is None else os.path.join(alt, "evidence"))
+    os.makedirs(evdir, exist_ok=True)
+    with open(os.path.join(evdir, "%s.json" % prop_id), "w", encoding="utf-8") as f:
         json.dump(evidence, f, indent=1, sort_keys=True)
 
     print(
